@@ -10,7 +10,7 @@ import random
 import shutil
 
 from harness import gen
-from harness.common import (Result, Violation, canon_vals, compare, fl, fl_str, impl, quiet, run_driver, tempdir)
+from harness.common import (Result, Violation, canon_vals, compare, fl, fl_str, impl, quiet, run_driver, tempdir, worker_copy)
 
 KINDS = ("random", "grid", "hyperband", "bayes")
 
@@ -514,6 +514,29 @@ def scenario(sseed, kind, mode, res, crash_at=None, second=None, maxlen=60):
                         if aborted:
                             expect.append("ABORT")
                             tags["abort"] += 1
+                            # the other tuners still hold trials: the finished trials go on containing the streak, so every
+                            # further end that records a final outcome must be refused with the same error (monitor only:
+                            # the model treats the abort as terminal)
+                            for w2 in sorted(hold):
+                                t2 = hold[w2]
+                                oc2 = R.choice(["C", "FAIL", "INV"])
+                                if oc2 == "C":
+                                    quiet(o.update_trial, t2.trial_id, {"score": 1.0}, step=0)
+                                t2.status = {"C": "COMPLETED", "FAIL": "FAILED", "INV": "INVALID"}[oc2]
+                                n_end = len(o.end_order)
+                                try:
+                                    quiet(o.end_trial, worker_copy(R, t2))
+                                    raised = False
+                                except RuntimeError as e:
+                                    if "consecutive" not in str(e):
+                                        raise
+                                    raised = True
+                                tags["end-after-abort"] += 1
+                                if len(o.end_order) > n_end and not raised:
+                                    sts2 = [o.trials[i_].status for i_ in o.end_order]
+                                    raise Violation("C03", f"the finished trials {sts2} contain {o.max_consecutive_failed_trials} consecutive FAILED, yet tuner {w2} "
+                                                           f"ended trial {t2.trial_id} without the search being aborted", {"tag": "no-abort-after-streak"})
+                            hold.clear()
                             break
                         tr = o.trials[t.trial_id]
                         if tr.status == "INVALID":
